@@ -85,7 +85,8 @@ def run(ctx):
         "distinct_nontrivial": sum(1 for c in rows if c["maps"]) + stats["steps_in_maps_mode"],
         "rule": "G: %d TLC-simulated behaviours (14 ops over a 3-bit universe, ListSize 2) replayed through seeded bit-position embeddings "
                 "with tombstone padding to the real 256-slot switch, every model address probed in 4- and 16-byte form after every op; "
-                "T: %d seeded real-width histories of >= 650 ops judged by TLC with W=32; non-trivial = traces that ended in maps mode "
+                "T: %d real-width histories judged by TLC with W=32 (seeded ones of >= 650 ops incl. non-IPv4 arguments, and 128 list-boundary histories: "
+                "list filled to 256 / 255 ranges, then every tail of three operations over {remove last, remove first, add, add}); non-trivial = traces that ended in maps mode "
                 "+ replayed steps executed in maps mode" % (len(beh), len(rows)),
         "exhaustive": False, "model_universe": "W=%d ListSize=%d full graph" % (W, L), "replay": stats,
         "trace_events": nev, "traces_crossing_switch": sum(1 for c in rows if c["maps"]), "drift": len(drift) + len(drift2),
